@@ -318,6 +318,31 @@ def run_round(case):
             if touches != in_shell or in_core == in_shell:
                 bad("shell-membership-not-geometric", f"face with centre {np.round(f.center, 4).tolist()}: shell {in_shell}, core {in_core}, has an edge on the outer circle {touches}")
         execs = len(faces)
+        # a shape extruded from the sketch (with a mid sketch: lofted) is addressed like the sketch: operation [i][j] stands
+        # on face [i][j] of the sketch and ends straight above it
+        vec = Vv([0.1, -0.2, 0.9])
+        for variant in ("extruded", "lofted_mid"):
+            try:
+                if variant == "extruded":
+                    shape = cb.ExtrudedShape(sketch, vec)
+                else:
+                    shape = cb.LoftedShape(sketch, sketch.copy().translate(vec), sketch.copy().translate(0.5 * np.asarray(vec)))
+                g = shape.grid
+            except Exception as err:
+                bad("core-shell-grid-raised", f"{variant}: {type(err).__name__}: {err}")
+                continue
+            sg = sketch.grid
+            if [len(r) for r in g] != [len(r) for r in sg]:
+                bad("shape-grid-not-the-sketch-grid", f"{variant}: rows of {[len(r) for r in g]} operations on rows of {[len(r) for r in sg]} faces")
+                continue
+            for i, row in enumerate(g):
+                for j, op in enumerate(row):
+                    execs += 1
+                    b = np.array(sg[i][j].point_array)
+                    if np.max(np.linalg.norm(np.array(op.bottom_face.point_array) - b, axis=1)) > 1e-9:
+                        bad("shape-grid-not-the-sketch-grid", f"{variant}: operation [{i}][{j}] does not stand on face [{i}][{j}] of the sketch")
+                    elif np.max(np.linalg.norm(np.array(op.top_face.point_array) - (b + vec), axis=1)) > 1e-9:
+                        bad("shape-grid-not-the-sketch-grid", f"{variant}: operation [{i}][{j}] stands on face [{i}][{j}] of the sketch but does not end above it")
     return violations, execs
 
 
